@@ -667,6 +667,7 @@ fn c06_working_memory_listing_search() -> (bool, String) {
         Ret(usize),
     }
     let types = ["A", "B", "C"];
+    let max_len = crate::bound(6, 8);
     let mut tried = 0u64;
     let mut stack: Vec<Vec<W>> = vec![vec![]];
     while let Some(h) = stack.pop() {
@@ -710,7 +711,7 @@ fn c06_working_memory_listing_search() -> (bool, String) {
                 }
             }
         }
-        if h.len() < 6 {
+        if h.len() < max_len {
             let n = m.facts.len();
             // symmetry: a new type index may exceed the largest used so far by at most one
             let used = h.iter().filter_map(|o| if let W::Ins(t) = o { Some(*t + 1) } else { None }).max().unwrap_or(0);
@@ -731,16 +732,17 @@ fn c06_working_memory_listing_search() -> (bool, String) {
             }
         }
     }
-    (false, format!("{} WorkingMemory histories of <= 6 insert/update/retract over <= 6 facts of 3 types: every live fact listed once by handle, type and in full, retracted ones nowhere, handles distinct", tried))
+    (false, format!("{} WorkingMemory histories of <= {} insert/update/retract over <= {} facts of 3 types: every live fact listed once by handle, type and in full, retracted ones nowhere, handles distinct", tried, max_len, max_len))
 }
 
 /// constructor-built rules with recording actions that leave working memory unchanged: a conjunction on A that only a
 /// blend of two facts satisfies, a rule on B, facts lacking a field, two types
 fn c06_fire_all_history_search() -> (bool, String) {
     let s = Setup { rules: rs_conjunction(), templates: ab_templates(), action: Act::Nothing, via_grl: false, max_facts: 4, with_update: false };
-    match search(&s, 5) {
+    let max_ops = crate::bound(5, 6);
+    match search(&s, max_ops) {
         (Some(v), _) => (true, v),
-        (None, n) => (false, format!("{} histories of <= 5 insert/retract/fire_all/reset over <= 4 facts of 2 types (facts lacking a field, conjunction satisfied only by a blend of two facts), firings and listings as the reference", n)),
+        (None, n) => (false, format!("{} histories of <= {} insert/retract/fire_all/reset over <= 4 facts of 2 types (facts lacking a field, conjunction satisfied only by a blend of two facts), firings and listings as the reference", n, max_ops)),
     }
 }
 
@@ -754,14 +756,15 @@ fn c06_fire_all_two_rules_and_update_search() -> (bool, String) {
         (Setup { rules: rs_two_on_one_type(), templates: a_templates(), action: Act::Nothing, via_grl: false, max_facts: 2, with_update: true }, 5),
         (Setup { rules: rs_negation(), templates: a_templates(), action: Act::Nothing, via_grl: false, max_facts: 3, with_update: false }, 5),
     ];
+    let deeper = crate::bound(0, 1); // thorough tier: one more operation per history
     for (s, depth) in &setups {
-        let (v, n) = search(s, *depth);
+        let (v, n) = search(s, *depth + deeper);
         total += n;
         if let Some(v) = v {
             return (true, v);
         }
     }
-    (false, format!("{} histories of <= 5 insert/update/retract/fire_all/reset over <= 4 facts (two rules on one type; a negation; updates that keep every satisfied rule satisfied), firings and listings as the reference", total))
+    (false, format!("{} histories of <= {} insert/update/retract/fire_all/reset over <= 4 facts (two rules on one type; a negation; updates that keep every satisfied rule satisfied), firings and listings as the reference", total, 5 + deeper))
 }
 
 /// the same rule sets written as GRL text and loaded through GrlReteLoader (only the returned rule names are observable)
@@ -785,14 +788,15 @@ fn c06_grl_loaded_history_search() -> (bool, String) {
         (Setup { rules: rs_conjunction(), templates: ab_templates(), action: Act::Nothing, via_grl: true, max_facts: 3, with_update: false }, 4),
         (Setup { rules: rs_negation(), templates: a_templates(), action: Act::Nothing, via_grl: true, max_facts: 3, with_update: false }, 4),
     ];
+    let deeper = crate::bound(0, 1); // thorough tier: one more operation per history
     for (s, depth) in &setups {
-        let (v, n) = search(s, *depth);
+        let (v, n) = search(s, *depth + deeper);
         total += n;
         if let Some(v) = v {
             return (true, v);
         }
     }
-    (false, format!("{} histories over GRL-loaded rule sets (3 rules on Person/Order with &&, ||, >=, !=, float and boolean literals; the conjunction set; the negation set), fired rule names and listings as the reference", total))
+    (false, format!("{} histories over GRL-loaded rule sets (3 rules on Person/Order with &&, ||, >=, !=, float and boolean literals; the conjunction set; the negation set: histories of <= {} / {} / {} operations), fired rule names and listings as the reference", total, 5 + deeper, 4 + deeper, 4 + deeper))
 }
 
 /// actions that retract or modify the matched fact (sentence 1 and the listing only)
@@ -804,14 +808,15 @@ fn c06_retracting_and_modifying_action_search() -> (bool, String) {
         (Setup { rules: big(true), templates: a_templates(), action: Act::RetractMatched, via_grl: false, max_facts: 4, with_update: false }, 5),
         (Setup { rules: big(true), templates: a_templates(), action: Act::ZeroX, via_grl: false, max_facts: 3, with_update: false }, 5),
     ];
+    let deeper = crate::bound(0, 1); // thorough tier: one more operation per history
     for (s, depth) in &setups {
-        let (v, n) = search(s, *depth);
+        let (v, n) = search(s, *depth + deeper);
         total += n;
         if let Some(v) = v {
             return (true, v);
         }
     }
-    (false, format!("{} histories with an action that retracts the matched fact (no-loop and not) or rewrites its field (one no-loop rule): every firing on a live fact that satisfies the rule at that moment, listings as the reference", total))
+    (false, format!("{} histories of <= {} operations with an action that retracts the matched fact (no-loop and not) or rewrites its field (one no-loop rule): every firing on a live fact that satisfies the rule at that moment, listings as the reference", total, 5 + deeper))
 }
 
 pub fn witnesses() -> Vec<crate::W> {
